@@ -7,15 +7,16 @@
 //! a bound, every sign pattern, both widths, bincode, JSON and the hand-written JSON map form with
 //! its fields in every order; and, for the inequality clause, every pair of "twin" data sets
 //! (different rows and different targets) per type. Estimators that draw random numbers are fitted
-//! with the draws owned (default answers, thorough: every single deviation) or with a fixed seed.
+//! with the draws owned (default answers, thorough: every schedule with at most two deviations) or with a
+//! fixed seed.
 
 mod cmp;
 mod data;
 mod subjects;
 
-use cmp::{debug_compare, differing_fields, mentions_non_finite, obs_compare, obs_digest, obs_materially_different, Obs};
+use cmp::{debug_compare, differing_fields, mentions_non_finite, obs_compare, obs_digest, obs_materially_different};
 use data::{Data, Domain, Micro, Task};
-use mc_core::{self as mc, json, Harness, Job, Plan, Tier, Value};
+use mc_core::{self as mc, json, Harness, Job, Plan, Tier};
 use mc_sc::{own_rng, release_rng, take_draws, RngMode};
 use smartcore::linalg::naive::dense_matrix::DenseMatrix;
 use smartcore::linalg::BaseMatrix;
@@ -241,7 +242,12 @@ fn round_trip_checks(comp: &str, ctx: &str, m: &dyn Model, q: &[Vec<f64>], fmt: 
     let state_tol = if exact { None } else { Some(64.0 * eps) };
     let dbg_r = r.debug();
     if let Some(diff) = debug_compare(&dbg, &dbg_r, state_tol) {
-        let fields = differing_fields(&m.to_value(), &r.to_value(), 64.0 * eps, 2);
+        // which serialised fields changed; a field that is not part of the serial form at all
+        // (skipped) cannot show up there
+        let mut fields = differing_fields(&m.to_value(), &r.to_value(), 64.0 * eps, 2);
+        if fields == "none" {
+            fields = "field-absent-from-serial-form".into();
+        }
         mc::violation(format!("{}.{}:state-changed:{}", comp, fname, fields), format!("{}: the restored object's state differs from the original's ({})", ctx, diff));
     }
     // --- a second serialisation of the restored object gives the same bytes / text
@@ -551,7 +557,9 @@ fn matrix_case<T: Num>(r: usize, c: usize, pattern: usize, via_transpose: bool, 
 // ------------------------------------------------------------------------------------------------
 
 /// Types fitted by an iterative optimiser without an iteration bound that holds at extreme scales
-/// (their termination is the business of C08-C10): they get the three moderate value variants only.
+/// (their termination is the business of C08-C10; e.g. Lasso<f32> does not terminate on the 8x5
+/// data set shifted by 10): they get the three moderate value variants only, and the VERIF_SEED
+/// lattice offset is not applied to them.
 fn iterative(subject_name: &str) -> bool {
     ["svc[", "svr[", "lasso[", "elastic_net[", "logistic_regression["].iter().any(|p| subject_name.starts_with(p))
 }
@@ -577,6 +585,7 @@ fn micro_families(thorough: bool) -> Vec<Micro> {
             Micro { n: 4, p: 2, sigma: 2 },
             Micro { n: 5, p: 1, sigma: 3 },
             Micro { n: 3, p: 3, sigma: 2 },
+            Micro { n: 4, p: 2, sigma: 3 },
         ]
     } else {
         vec![Micro { n: 3, p: 1, sigma: 3 }, Micro { n: 3, p: 2, sigma: 2 }]
@@ -604,7 +613,7 @@ impl Harness for C19 {
         for (name, domain, _task, random, _) in &names {
             let mut j = Job::new(format!("rt-{}", name), json!({"kind": "rt", "subject": name, "datasets": n_cat, "variants": data::n_variants(*domain, th, iterative(name)), "seed": seed}));
             if *random {
-                j = j.with_dev_bound(if th { 1 } else { 0 });
+                j = j.with_dev_bound(if th { 2 } else { 0 });
             }
             jobs.push(j);
         }
@@ -627,12 +636,18 @@ impl Harness for C19 {
                 if fam.p < *min_p || name.starts_with("lasso[") || name.starts_with("elastic_net[") {
                     continue;
                 }
+                // the largest family (6561 matrices) at f64 only, plain values only
+                let big = fam.n_x() > 1000;
+                if big && name.ends_with("<f32>") {
+                    continue;
+                }
+                let nvar = if th && !big { 2 } else { 1 };
                 // one job per block of feature matrices
                 let nx = fam.n_x();
-                let block = 27.min(nx);
+                let block = if nx > 1000 { 243 } else if nx >= 243 { 81 } else { 27.min(nx) };
                 let ny = if *task == Task::Unsupervised { 1 } else { fam.n_y() };
                 for b in 0..((nx + block - 1) / block) {
-                    let mut j = Job::new(format!("micro{}-{}-b{}", fi, name, b), json!({"kind": "micro", "subject": name, "mn": fam.n, "mp": fam.p, "ms": fam.sigma, "x0": b * block, "xn": block.min(nx - b * block), "ny": ny}));
+                    let mut j = Job::new(format!("micro{}-{}-b{}", fi, name, b), json!({"kind": "micro", "subject": name, "mn": fam.n, "mp": fam.p, "ms": fam.sigma, "x0": b * block, "xn": block.min(nx - b * block), "ny": ny, "variants": nvar}));
                     if *random {
                         j = j.with_dev_bound(0);
                     }
@@ -671,8 +686,8 @@ impl Harness for C19 {
                 "subjects": format!("{} type configurations (each at f64 and f32 counted separately)", names.len()),
                 "round_trips": format!("every subject x {} catalogue data sets (6x1, 9x2, 8x2, 10x3, 12x4, 8x5) x value variants ({} for real-valued, 3 for count data; VERIF_SEED selects one of 8 lattice offsets) x {{bincode, JSON}}; queries: the half-step / integer lattice of the data set's dimension plus the training rows", n_cat, if th { "3, and 5 incl. the scales 2^-30 and 2^30 for types that are not fitted by an iterative optimiser" } else { "3" }),
                 "inequality": format!("every subject with == x every catalogue data set x {} variant(s) x every unordered pair of its {} twins (identity, shifted rows + renamed targets, appended row + changed targets, reversed order, mirrored column + swapped classes)", if th { 3 } else { 1 }, data::N_TWINS),
-                "micro": micro_families(th).iter().map(|f| format!("every {}x{} matrix over {{0..{}}} ({}) x every binary labelling using both classes ({})", f.n, f.p, f.sigma - 1, f.n_x(), f.n_y())).collect::<Vec<_>>(),
-                "random_estimators": format!("SVC visiting order and k-means++ seeding answered through the verif-hooks seam: default answers{}; forests: the library's seeded generator with 3 fixed seeds", if th { " and every single deviation from them (catalogue round trips)" } else { "" }),
+                "micro": micro_families(th).iter().map(|f| format!("every {}x{} matrix over {{0..{}}} ({}) x every binary labelling using both classes ({}){}", f.n, f.p, f.sigma - 1, f.n_x(), f.n_y(), if !th { " x plain values" } else if f.n_x() > 1000 { " x plain values, f64 only" } else { " x {plain, non-dyadic} values" })).collect::<Vec<_>>(),
+                "random_estimators": format!("SVC visiting order and k-means++ seeding answered through the verif-hooks seam: default answers{}; forests: the library's seeded generator with 3 fixed seeds", if th { " and every schedule with at most two deviations from them (catalogue round trips)" } else { "" }),
             }),
         }
     }
@@ -702,7 +717,7 @@ impl Harness for C19 {
                         mc::count("not_applicable");
                         return;
                     }
-                    let d = data::variant(base, s.domain, vi, seed);
+                    let d = data::variant(base, s.domain, vi, if iterative(&s.name) { 0 } else { seed });
                     rt_case(s, eps, &d, fmt);
                 })
             }
@@ -718,7 +733,7 @@ impl Harness for C19 {
                         mc::count("not_applicable");
                         return;
                     }
-                    let d = data::variant(base, s.domain, vi, seed);
+                    let d = data::variant(base, s.domain, vi, if iterative(&s.name) { 0 } else { seed });
                     // unrank the pair
                     let (mut a, mut b, mut k) = (0usize, 1usize, 0usize);
                     'f: for i in 0..data::N_TWINS {
@@ -739,8 +754,11 @@ impl Harness for C19 {
                 let xi = job.u("x0") + mc::choose(job.u("xn"));
                 let yi = mc::choose(job.u("ny"));
                 let fmt = if mc::choose(2) == 0 { Format::Bincode } else { Format::Json };
+                let vi = mc::choose(job.u("variants"));
                 with_subject(job.s("subject"), |s, eps| {
                     let d = fam.build(xi, yi);
+                    // value variant 1: non-dyadic features / targets, renamed classes
+                    let d = if vi == 0 { d } else { data::variant(&d, s.domain, vi, 0) };
                     rt_case(s, eps, &d, fmt);
                 })
             }
@@ -779,6 +797,3 @@ fn main() {
     }
     mc::main(C19)
 }
-
-#[allow(dead_code)]
-fn _unused(_: Value, _: Obs) {}
